@@ -28,6 +28,10 @@ Patterns == { PAnd(<<I("p"), r, I("q")>>) : r \in Repeated }
        \cup { PAnd(<<r, I("q")>>) : r \in Repeated }
        \cup { PAnd(<<I("p"), r>>) : r \in Repeated }
        \cup { PAnd(<<r>>) : r \in { r \in Repeated : r.lo > 0 } }
+       \* a follower that can match the very instruction the repetition could also take (the repetition
+       \* has to give instructions back)
+       \cup { PAnd(<<r, PIns("a", <<OLit("x")>>)>>) : r \in Repeated }
+       \cup { PAnd(<<I("p"), r, I("a"), I("q")>>) : r \in Repeated }
        \cup Unrolled
 
 Bodies == { <<"a", <<>> >>, <<"a", <<"x">> >>, <<"b", <<>> >>, <<"c", <<>> >> }
